@@ -35,6 +35,17 @@ type opDef struct {
 	PushKind  string // cur | force | all | tags | delete | lfs-cur | lfs-all | lfs-oid
 	Batch     int
 	Prune     bool
+	Refs      []string // PushKind refs / lfs-refs: short names of the refs named in ONE invocation
+}
+
+// resolveRef: short name -> full local ref name (branches first, then tags), "" if it does not exist.
+func resolveRef(st *wstate, name string) string {
+	for _, pfx := range []string{"refs/heads/", "refs/tags/"} {
+		if _, ok := st.LRefs[pfx+name]; ok {
+			return pfx + name
+		}
+	}
+	return ""
 }
 
 var wtPaths = []string{"a.bin", "b.bin", "d.bin"}
@@ -42,18 +53,21 @@ var wtPaths = []string{"a.bin", "b.bin", "d.bin"}
 // ---------------------------------------------------------------------------------------------------------
 // server control
 
-var faultNames = []string{"put-500", "put-500-once", "put-422", "put-403", "verify-fail", "verify-ok", "batch-objerr", "batch-500"}
+var faultNames = []string{"put-500", "put-500-once", "put-422", "put-403", "verify-fail", "verify-ok", "batch-objerr", "batch-500",
+	"expire-first", "expire-first-neg", "expire-first-at", "expire-always"}
 
 type faultCtl struct {
 	mu      sync.Mutex
-	name    string
-	putSeen map[string]int
+	name      string
+	putSeen   map[string]int
+	batchSeen int
 }
 
 func (f *faultCtl) set(name string) {
 	f.mu.Lock()
 	f.name = name
 	f.putSeen = map[string]int{}
+	f.batchSeen = 0
 	f.mu.Unlock()
 }
 
@@ -118,7 +132,27 @@ func newServer(fc *faultCtl) *fakelfs.Server {
 	s.BatchHook = func(s *fakelfs.Server, req *fakelfs.BatchRequest, resp *fakelfs.BatchResponse) (int, []byte) {
 		fc.mu.Lock()
 		f := fc.name
+		nb := fc.batchSeen
+		if req.Operation == "upload" {
+			fc.batchSeen++
+		}
 		fc.mu.Unlock()
+		// short-lived upload actions: of the first batch response only (the client must ask again and then upload), or of
+		// every response (the push cannot succeed)
+		if strings.HasPrefix(f, "expire-") && req.Operation == "upload" && (nb == 0 || f == "expire-always") {
+			for _, o := range resp.Objects {
+				if a := o.Actions["upload"]; a != nil {
+					switch f {
+					case "expire-first-neg":
+						a.ExpiresIn = -1
+					case "expire-first-at":
+						a.ExpiresAt = "2001-01-01T00:00:00Z"
+					default:
+						a.ExpiresIn = 1
+					}
+				}
+			}
+		}
 		if f == "batch-objerr" && req.Operation == "upload" {
 			for _, o := range resp.Objects {
 				if o.Actions != nil {
@@ -415,6 +449,15 @@ func (e *envT) apply(w *worker, st *wstate, o opDef) (res gitx.Res, enabled bool
 				return res, false
 			}
 			args = append(args, "push", rname, ":"+cur)
+		case "refs", "lfs-refs":
+			if o.Refs[0] == o.Refs[1] || resolveRef(st, o.Refs[0]) == "" || resolveRef(st, o.Refs[1]) == "" {
+				return res, false
+			}
+			if o.PushKind == "refs" {
+				args = append(args, "push", rname, o.Refs[0], o.Refs[1])
+			} else {
+				args = append(args, "lfs", "push", rname, o.Refs[0], o.Refs[1])
+			}
 		case "lfs-cur":
 			args = append(args, "lfs", "push", rname, cur)
 		case "lfs-all":
@@ -585,6 +628,14 @@ func remoteOps(ri int, full, thorough bool) []opDef {
 			{Name: "other client deletes " + r + "/f", Kind: "other-del", Remote: ri, Branch: "f"},
 		}...)
 	}
+	switch {
+	case full && thorough:
+		ops = append(ops, pairOps(ri, []string{"main", "f", "o", "t1", "t2"})...)
+	case full:
+		ops = append(ops, pairOps(ri, []string{"main", "f", "o", "t1"})...)
+	default:
+		ops = append(ops, pairOps(ri, []string{"main", "f"})...)
+	}
 	if full && thorough {
 		ops = append(ops, []opDef{
 			{Name: "git -c lfs.transfer.batchsize=2 push " + r + " --all", Kind: "gitpush", Push: true, Remote: ri, PushKind: "all", Batch: 2},
@@ -592,6 +643,25 @@ func remoteOps(ri int, full, thorough bool) []opDef {
 			{Name: "git fetch --prune " + r, Kind: "fetch", Remote: ri, Prune: true},
 			{Name: "other client pushes a new commit to " + r + "/main", Kind: "other-advance", Remote: ri, Branch: "main"},
 		}...)
+	}
+	return ops
+}
+
+// pairOps: two refs named in ONE invocation: `git lfs push <remote> A B` for every ordered pair, `git push <remote> A B`
+// (one pre-push hook run with two updates) for every unordered pair of the given names.
+func pairOps(ri int, names []string) []opDef {
+	r := remoteNames[ri]
+	var ops []opDef
+	for i, a := range names {
+		for j, b := range names {
+			if i == j {
+				continue
+			}
+			ops = append(ops, opDef{Name: "git lfs push " + r + " " + a + " " + b, Kind: "lfspush", Push: true, Remote: ri, PushKind: "lfs-refs", Refs: []string{a, b}})
+			if i < j {
+				ops = append(ops, opDef{Name: "git push " + r + " " + a + " " + b, Kind: "gitpush", Push: true, Remote: ri, PushKind: "refs", Refs: []string{a, b}})
+			}
+		}
 	}
 	return ops
 }
